@@ -111,7 +111,7 @@ def run_with(case, sched):
         if p.exc is not None and not isinstance(p.exc, SchedAbort):
             raise Violation(f"participant {p.name} failed with {type(p.exc).__name__}: {p.exc} | case={info}") from p.exc
     if result == Sched.DEADLOCK:
-        raise Violation(f"the call hangs: no participant can run, blocked={sched.blocked} | case={info} trace={sched.trace[-25:]}")
+        raise Violation(f"the call hangs: no participant can run, blocked={sched.blocked} | case={info} trace={sched.trace[-25:]} where={sched.blocked_stacks}")
     require(res.get("returned"), "caller did not return", case=info)
     if case["n"] == 1 and case["m"] == 0:
         handled = None
